@@ -333,6 +333,16 @@ XPending(i) ==
          [] x.ev = "drop" -> FALSE
          [] x.ev = "xflush" /\ x.c = "ok" /\ x.what # "all" -> FALSE        \* (FlushAll writes the files but does not commit the index)
          [] OTHER -> XPending(i - 1)
+\* how many poll periods have elapsed since the second collection was last written to (its flusher flushes and commits
+\* at the latest one timeout after any write: its sleep counter only restarts when it flushes)
+RECURSIVE XTicksSince(_)
+XTicksSince(i) ==
+  IF i = 0 \/ Trace[i].ev = "reset" THEN 0
+  ELSE LET x == Trace[i] IN
+       CASE x.ev \in {"xput", "xdel"} /\ x.c = "ok" -> 0
+         [] x.ev \in {"reopen", "drop"} -> 0
+         [] x.ev = "tick" -> XTicksSince(i - 1) + 1
+         [] OTHER -> XTicksSince(i - 1)
 XConflict(S, u, k) == \E w \in DOMAIN S : w # u /\ S[w][1] = k
 XMap(rows)   == [u \in {rows[i][1] : i \in 1..Len(rows)} |-> LET i == CHOOSE i \in 1..Len(rows) : rows[i][1] = u IN <<rows[i][2], rows[i][3]>>]
 XFileMap(fs) == [u \in {fs[i][1] : i \in 1..Len(fs)} |-> LET i == CHOOSE i \in 1..Len(fs) : fs[i][1] = u IN <<fs[i][3], fs[i][4]>>]
@@ -362,6 +372,11 @@ Conf_X ==
   /\ E.ev = "xflush" => /\ E.c = "ok" /\ XFileMap(E.xdir.files) = XStoreAt(l - 1)
                          /\ E.what # "all" => XDirOK(E.xdir, XStoreAt(l - 1))
   /\ (E.ev = "reopen" /\ E.close /\ "xdir" \in DOMAIN E) => XDirOK(E.xdir, XStoreAt(l - 1))
+  \* the second collection has a background flusher of its own: one timeout after its last write everything it accepted
+  \* is on disk and committed, without any further call
+  /\ (E.ev = "tick" /\ "xdir" \in DOMAIN E /\ hdr.cfg.async) =>
+        /\ XNoResurrection(E.xdir, XStoreAt(l - 1))
+        /\ XTicksSince(l - 1) >= TmoTicks => XDirOK(E.xdir, XStoreAt(l - 1))
 
 -----------------------------------------------------------------------------
 (* One invariant per property                                               *)
@@ -508,6 +523,11 @@ Conf_C07 ==
 Conf_C14 ==
   At =>
   /\ E.ev = "obs" => ReadsOK(E, store)
+  \* One / AssignOne with one probe for two look-ups: a result is neither the probe nor the other result, it is the stored object
+  \* and stays what it was when the other result is obtained and scribbled over
+  /\ (E.ev = "mutate" /\ E.what = "one" /\ "before" \in DOMAIN E) =>
+        /\ ~E.isprobe /\ E.slot1 \in DOMAIN store /\ E.before = store[E.slot1]
+        /\ "after" \in DOMAIN E => (E.after = E.before /\ E.after2 = E.before /\ (~E.same \/ Cardinality(DOMAIN store) = 1))
   /\ (E.ev = "mutate" /\ E.what = "share" /\ E.c = "ok") => E.before = E.after
   /\ (E.ev = "mutate" /\ E.what = "share" /\ E.slot \in DOMAIN store) => (E.c = "ok" /\ E.before = store[E.slot])
 
